@@ -455,8 +455,128 @@ class Inliner:
         return self.changed
 
 
+def _is_njit(fn):
+    return any(d in ("njit", "jit") for d in _decorators(fn))
+
+
+def _split_simple_statements(stmts):
+    """`x: T = v` -> `x = v`;  `a, b = u, v` -> `a = u; b = v` (when no target is read on the right-hand side).  Recursive."""
+    out = []
+    for s in stmts:
+        if isinstance(s, (ast.FunctionDef, ast.AsyncFunctionDef, ast.ClassDef)):
+            out.append(s)
+            continue
+        if isinstance(s, ast.AnnAssign) and s.value is not None and isinstance(s.target, ast.Name):
+            s = ast.copy_location(ast.Assign(targets=[s.target], value=s.value), s)
+        if isinstance(s, ast.Assign) and len(s.targets) == 1 and isinstance(s.targets[0], (ast.Tuple, ast.List)) \
+                and isinstance(s.value, (ast.Tuple, ast.List)) and len(s.targets[0].elts) == len(s.value.elts) \
+                and all(isinstance(t, ast.Name) for t in s.targets[0].elts) and not any(isinstance(v, ast.Starred) for v in s.value.elts):
+            tnames = {t.id for t in s.targets[0].elts}
+            rnames = {n.id for v in s.value.elts for n in ast.walk(v) if isinstance(n, ast.Name)}
+            if not (tnames & rnames) and len(tnames) == len(s.targets[0].elts):
+                for t, v in zip(s.targets[0].elts, s.value.elts):
+                    out.append(ast.copy_location(ast.Assign(targets=[t], value=v), s))
+                continue
+        for fld in ("body", "orelse", "finalbody"):
+            if hasattr(s, fld) and isinstance(getattr(s, fld), list):
+                setattr(s, fld, _split_simple_statements(getattr(s, fld)))
+        if isinstance(s, ast.Try):
+            for h in s.handlers:
+                h.body = _split_simple_statements(h.body)
+        out.append(s)
+    return out
+
+
+def _copyable(v, stable, stored_attrs):
+    """Name / attribute chain on a never-rebound name / constant: an expression whose value cannot change between the temporary's
+    definition and its uses inside this function (no statement of the function stores to an attribute of that name)."""
+    if isinstance(v, ast.Constant):
+        return True
+    if isinstance(v, ast.Name):
+        return v.id in stable
+    if isinstance(v, ast.Attribute):
+        return v.attr not in stored_attrs and _copyable(v.value, stable, stored_attrs)
+    return False
+
+
+def _propagate_copies(fn):
+    """Loads of single-assignment locals that merely name a parameter, an attribute chain or a constant are replaced by that
+    expression; `*t` in a call is expanded when t is such a local bound to a tuple display.  (Python functions only.)"""
+    from .model import single_assignments
+    sa = single_assignments(fn, allow_subscript=False, in_loops=True)
+    if not sa:
+        return 0
+    stored = set()
+    stored_attrs = set()
+    dyn = False
+    for n in ast.walk(fn):
+        if isinstance(n, ast.Name) and isinstance(n.ctx, (ast.Store, ast.Del)):
+            stored.add(n.id)
+        elif isinstance(n, ast.Attribute) and isinstance(n.ctx, (ast.Store, ast.Del)):
+            stored_attrs.add(n.attr)
+        elif isinstance(n, ast.Call) and isinstance(n.func, ast.Name) and n.func.id in ("setattr", "delattr", "exec", "eval", "locals", "vars"):
+            dyn = True
+        elif isinstance(n, (ast.Global, ast.Nonlocal)):
+            dyn = True
+    if dyn:
+        return 0
+    params = {a.arg for a in fn.args.args + fn.args.kwonlyargs + fn.args.posonlyargs}
+    stable = {p for p in params if p not in stored}
+    env = {}
+    changed = True
+    while changed:
+        changed = False
+        for n, v in sa.items():
+            if n in env:
+                continue
+            if _copyable(v, stable | set(env), stored_attrs):
+                env[n] = v
+                changed = True
+            elif isinstance(v, ast.Tuple) and all(_copyable(x, stable | set(env), stored_attrs) for x in v.elts):
+                env[n] = v
+                changed = True
+    if not env:
+        return 0
+    count = [0]
+
+    class T(ast.NodeTransformer):
+        def visit_Name(self, n):
+            if isinstance(n.ctx, ast.Load) and n.id in env and not isinstance(env[n.id], ast.Tuple):
+                count[0] += 1
+                return ast.copy_location(self.visit(copy.deepcopy(env[n.id])), n)
+            return n
+
+        def visit_Call(self, c):
+            new_args = []
+            for a in c.args:
+                if isinstance(a, ast.Starred) and isinstance(a.value, ast.Name) and isinstance(env.get(a.value.id), ast.Tuple):
+                    count[0] += 1
+                    new_args.extend(copy.deepcopy(x) for x in env[a.value.id].elts)
+                else:
+                    new_args.append(a)
+            c.args = new_args
+            self.generic_visit(c)
+            return c
+
+        def visit_FunctionDef(self, n):
+            return n
+
+        visit_Lambda = visit_ClassDef = visit_AsyncFunctionDef = visit_FunctionDef
+
+    t = T()
+    fn.body = [t.visit(s) for s in fn.body]
+    return count[0]
+
+
 def normalize(tree):
     inl = Inliner(tree)
     n = inl.run()
     tree._inlined_helpers = set(inl.inlined_names)
+    for node in ast.walk(tree):
+        if isinstance(node, ast.FunctionDef) and not _is_njit(node):
+            node.body = _split_simple_statements(node.body)
+            for _ in range(3):
+                if not _propagate_copies(node):
+                    break
+    ast.fix_missing_locations(tree)
     return n
